@@ -210,8 +210,69 @@ def c11_2(ctx: Ctx) -> RuleResult:
                 want = {norm(mul(P_(m, 1 + i), self_attr(m, "_equation_scaling"))), P_(m, 1 + i)}
                 ok = ok and comps[i] == want
         res.add(m, m.node, "linear differences are multiplied by the row scaling (undoing the normalisation)", ok, "" if ok else f"returns `{show(rt, 100)}`", construct="scaler: linear diffs")
+    _optional_field_guards(ctx, res, c)
     res.floor = 4
     return res
+
+
+def _optional_field_guards(ctx: Ctx, res: RuleResult, c) -> None:
+    """Guard consistency of the optional scaler fields: a field the class itself tests against None
+    (so it may be None) is used in arithmetic only where that very field is known to be set - under
+    `if self.F is not None`, in the matching branch of a conditional expression, after `assert self.F is not None`
+    or after a store of a value in the same method.  `if self._scales is not None: x * self._rows` applies the
+    row scaling under the wrong condition (skipped for an offset-only scaler, TypeError for an unscaled one)."""
+    from ..util import _enclosing_conds, norm_cond, path_condition
+
+    X = ctx.X
+    tested: set[str] = set()
+    for m in c.methods.values():
+        if not m.positional:
+            continue
+        for n in nodes_in(m, ast.Compare):
+            if len(n.ops) == 1 and isinstance(n.ops[0], (ast.Is, ast.IsNot)) and isinstance(n.comparators[0], ast.Constant) and n.comparators[0].value is None \
+                    and isinstance(n.left, ast.Attribute) and isinstance(n.left.value, ast.Name) and n.left.value.id == m.positional[0]:
+                tested.add(n.left.attr)
+    for m in c.methods.values():
+        if not m.positional or m.name == "__init__":
+            continue
+        selfp = ("param", m.qualname, m.positional[0])
+        for bn in nodes_in(m, (ast.BinOp, ast.AugAssign)):
+            operands = [bn.left, bn.right] if isinstance(bn, ast.BinOp) else [bn.value]
+            for op_ in operands:
+                for a in ast.walk(op_):
+                    if not (isinstance(a, ast.Attribute) and isinstance(a.value, ast.Name) and a.value.id == m.positional[0] and a.attr in tested and isinstance(a.ctx, ast.Load)):
+                        continue
+                    at = X.at(m, a)
+                    if at != ("attr", selfp, a.attr):
+                        continue  # assigned earlier in this method: the stored value is used
+                    st_ = bn
+                    while parent(st_) is not None and not isinstance(st_, ast.stmt):
+                        st_ = parent(st_)
+                    conds = [norm_cond(t_) if pol else (lambda ap: (ap[0], not ap[1]))(norm_cond(t_)) for t_, pol in path_condition(ctx, m, st_)]
+                    conds += list(_enclosing_conds(ctx, m, a))
+                    known = False
+                    for atom, pol in conds:
+                        lits = [(atom, pol)]
+                        if atom[0] == "bool" and atom[1] == "and" and pol:
+                            lits = [norm_cond(x) for x in atom[2]]
+                        for at_, p_ in lits:
+                            if at_[0] == "cmp" and at_[1] in ("is", "is not") and C(None) in (at_[2], at_[3]):
+                                other = at_[3] if at_[2] == C(None) else at_[2]
+                                if other == ("attr", selfp, a.attr) and p_ == (at_[1] == "is not"):
+                                    known = True
+                    # assert self.F is not None earlier in the same block chain
+                    if not known:
+                        blk = parent(st_)
+                        for fld in ("body", "orelse"):
+                            lst = getattr(blk, fld, None)
+                            if isinstance(lst, list) and st_ in lst:
+                                for prev in lst[:lst.index(st_)]:
+                                    if isinstance(prev, ast.Assert) and isinstance(prev.test, ast.Compare) and isinstance(prev.test.ops[0], ast.IsNot) \
+                                            and ast.unparse(prev.test.left) == ast.unparse(a):
+                                        known = True
+                    res.add(m, bn, f"`self.{a.attr}` (tested against None elsewhere in the class) is applied only where it is known to be set", known,
+                            "" if known else f"`{ast.unparse(bn)[:70]}` uses `self.{a.attr}` under a condition that does not test it: the map is applied for the wrong scalers",
+                            construct=f"{c.name}.{m.name}: optional field {a.attr} in `{ast.unparse(bn)[:40]}`")
 
 
 @rule(P)
@@ -437,3 +498,18 @@ def c11_6(ctx: Ctx) -> RuleResult:
     if n < 2:
         raise AnalysisError("event payload construction not found in both steps")
     return res
+
+
+@rule(P)
+def c11_7(ctx: Ctx) -> RuleResult:
+    """Shared with C13.2/C13.4: a back-transformed ConstraintInfo derives its violations from its own
+    (back-transformed) differences - they are never carried over from the optimizer-domain object."""
+    from .c13 import c13_2, c13_4
+
+    r = c13_2(ctx)
+    r.instances = [i for i in r.instances if i.construct.endswith(": guard")]
+    r.instances += [i for i in c13_4(ctx).instances if "recompute" in i.construct]
+    for i in r.instances:
+        i.rule = "C11.7"
+    r.rule, r.title, r.floor = "C11.7", "violations of a back-transformed result are recomputed from the back-transformed differences", 4
+    return r
